@@ -39,6 +39,31 @@ def cwidth (wc : Char → Int) : Text → Nat
   | [] => 0
   | c :: cs => (wc c).toNat + cwidth wc cs
 
+
+/-! ### decidable side conditions on a display table (re-decided on the regenerated table) -/
+
+/-- code points of the property's control characters: 0x00–0x1F, 0x7F–0x9F -/
+def controlCodes : List Nat := List.range 0x20 ++ (List.range 0x21).map (· + 0x7f)
+
+/-- every control character has an entry -/
+def coversControls (m : Table) : Bool :=
+  controlCodes.all fun n => (lookup m [Char.ofNat n]).isSome
+
+/-- no display string contains a control character -/
+def valuesPrintable (m : Table) : Bool := m.all fun kv => cleanB kv.2
+
+/-- every display string occupies at least one column (so a mapped character is never
+    treated as zero-width and merged raw into the previous cell) -/
+def valuesWidthPos (m : Table) (wc : Char → Int) : Bool := m.all fun kv => 0 < cwidth wc kv.2
+
+/-- all keys are single characters (as `Char.display_mappings` is used: `char in mappings`) -/
+def keysSingle (m : Table) : Bool := m.all fun kv => kv.1.length == 1
+
+/-- dict keys are unique -/
+def keysNodup : Table → Bool
+  | [] => true
+  | (k, _) :: rest => !(rest.any fun kv => kv.1 == k) && keysNodup rest
+
 /-- a screen cell: `Char.char`, `Char.style`, `Char.width` -/
 structure Cell where
   char : Text
